@@ -12,18 +12,28 @@
 EXTENDS Num, FiniteSets, TLC, Json, IOUtils
 CONSTANTS Mode
 
-\* shapes: name, type, number of feasible values (0 = continuous)
-Shapes == { [name |-> "D_unit", type |-> "DOUBLE", m |-> 0], [name |-> "D_neg", type |-> "DOUBLE", m |-> 0],
-            [name |-> "D_log", type |-> "DOUBLE", m |-> 0], [name |-> "D_revlog", type |-> "DOUBLE", m |-> 0],
-            [name |-> "D_single", type |-> "DOUBLE", m |-> 0], [name |-> "D_shift1", type |-> "DOUBLE", m |-> 0], [name |-> "D_sym1", type |-> "DOUBLE", m |-> 0],
+\* shapes: name, type, number of feasible values (0 = continuous), class.  Named shapes are fixed parameters; the shape
+\* "D_class" stands for a CLASS of continuous parameters (magnitude x sign x width x scale type) whose concrete bounds the
+\* driver draws (seeded) inside the class; "I_class" / "S_class" likewise for integer offsets and discrete value spreads.
+NoCls == [mag |-> "na", sign |-> "na", width |-> "na", st |-> "na"]
+Named(n, t, m) == [name |-> n, type |-> t, m |-> m, cls |-> NoCls]
+DClasses == {c \in [mag : {"unit", "big", "huge", "tiny"}, sign : {"pos", "neg", "cross"}, width : {"wide", "narrow"},
+                     st : {"LINEAR", "LOG", "REVERSE_LOG"}] : c.st # "LINEAR" => c.sign = "pos"}
+IClasses == [mag : {"unit", "big"}, sign : {"pos", "neg", "cross"}, width : {"wide"}, st : {"LINEAR", "LOG"}]
+Shapes == { Named("D_unit", "DOUBLE", 0), Named("D_neg", "DOUBLE", 0), Named("D_log", "DOUBLE", 0), Named("D_revlog", "DOUBLE", 0),
+            Named("D_single", "DOUBLE", 0), Named("D_shift1", "DOUBLE", 0), Named("D_sym1", "DOUBLE", 0),
             \* bounds that are not float32 numbers (float32(hi) > hi, float32(lo) < lo): decoding in float32 must still land inside
-            [name |-> "D_f32hi", type |-> "DOUBLE", m |-> 0], [name |-> "D_f32lo", type |-> "DOUBLE", m |-> 0],
-            [name |-> "I_small", type |-> "INTEGER", m |-> 6], [name |-> "I_wide", type |-> "INTEGER", m |-> 41],
-            [name |-> "S_three", type |-> "DISCRETE", m |-> 3], [name |-> "S_twelve", type |-> "DISCRETE", m |-> 12],
-            [name |-> "C_three", type |-> "CATEGORICAL", m |-> 3], [name |-> "C_single", type |-> "CATEGORICAL", m |-> 1],
-            [name |-> "B", type |-> "CATEGORICAL", m |-> 2] }
+            Named("D_f32hi", "DOUBLE", 0), Named("D_f32lo", "DOUBLE", 0),
+            Named("I_small", "INTEGER", 6), Named("I_wide", "INTEGER", 41),
+            Named("S_three", "DISCRETE", 3), Named("S_twelve", "DISCRETE", 12),
+            Named("C_three", "CATEGORICAL", 3), Named("C_single", "CATEGORICAL", 1), Named("B", "CATEGORICAL", 2) }
+          \cup {[name |-> "D_class", type |-> "DOUBLE", m |-> 0, cls |-> c] : c \in DClasses}
+          \cup {[name |-> "I_class", type |-> "INTEGER", m |-> 6, cls |-> c] : c \in {k \in IClasses : k.st = "LINEAR" \/ k.sign = "pos"}}
+          \cup {[name |-> "S_class", type |-> "DISCRETE", m |-> 4, cls |-> c] : c \in {k \in IClasses : k.st = "LINEAR"}}
 Thresholds == {0, 10, 1000}
-Cases == [shape : Shapes, scale : BOOLEAN, onehot : BOOLEAN, pad : BOOLEAN, thr : Thresholds, dtype : {"float32", "float64"}]
+\* float32 cannot resolve the logarithms of a range of relative width 3e-7: narrow log-scaled classes are float64 only
+Cases == {c \in [shape : Shapes, scale : BOOLEAN, onehot : BOOLEAN, pad : BOOLEAN, thr : Thresholds, dtype : {"float32", "float64"}] :
+            (c.shape.cls.width = "narrow" /\ c.shape.cls.st # "LINEAR") => c.dtype = "float64"}
 
 Numeric(s) == s.type \in {"INTEGER", "DISCRETE"}
 Continuified(c) == Numeric(c.shape) /\ c.shape.m > c.thr
@@ -43,6 +53,8 @@ Dump == Mode # "enumerate" \/ PrintT(ToJson([case |-> case, expected |-> Expecte
 \*  ncols; rows: per feasible / probe point i: [feat: seq of keys, hot: index or 0, back_ok: BOOLEAN, in01: keys]
 Zero == Obs[1].zero
 One == Obs[1].one
+\* o.lo01 / o.hi01: the unit interval widened by a few units of rounding of the dtype (the reverse-log scaler computes
+\* log(lo + hi - x), which is off by one rounding at the end points)
 InDomain(p, v) ==
   CASE p.type = "DOUBLE"      -> v.kind = "num" /\ FBetween(p.lo, v.key, p.hi)
     [] p.type = "INTEGER"     -> v.kind = "num" /\ FBetween(p.lo, v.key, p.hi) /\ FEq(v.key, v.fl)
@@ -59,7 +71,7 @@ Verdict(o) ==
   ELSE IF \E i \in DOMAIN o.rows : ~o.rows[i].back_ok THEN "round_trip"
   ELSE IF ~e.continuous /\ c.onehot /\ \E i \in DOMAIN o.rows : ~ExactlyOneHot(o.rows[i].feat) THEN "not_one_hot"
   ELSE IF ~e.continuous /\ c.onehot /\ \E i \in DOMAIN o.rows : HotIndex(o.rows[i].feat) # o.rows[i].index + 1 THEN "wrong_hot_column"
-  ELSE IF e.continuous /\ c.scale /\ \E i \in DOMAIN o.rows : ~FBetween(Zero, o.rows[i].feat[1], One) THEN "outside_unit_interval"
+  ELSE IF e.continuous /\ c.scale /\ \E i \in DOMAIN o.rows : ~FBetween(o.lo01, o.rows[i].feat[1], o.hi01) THEN "outside_unit_interval"
   ELSE IF e.continuous /\ c.scale /\ \E i \in DOMAIN o.rows : (i > 1 /\ FLt(o.rows[i].feat[1], o.rows[i - 1].feat[1])) THEN "orientation"
   ELSE IF e.continuous /\ c.scale /\ Len(o.rows) > 1 /\ ~(o.rows[1].near0 /\ o.rows[Len(o.rows)].near1) THEN "endpoints"
   ELSE IF \E i \in DOMAIN o.decoded : ~(o.decoded[i].present /\ InDomain(o.param, o.decoded[i].v)) THEN "decode_outside_space"
